@@ -85,7 +85,6 @@ bool utcp_bunch_read(struct utcp_bunch* utcp_bunch, struct bitbuf* bitbuf)
 		if (!bHardcoded)
 		{
 			// TODO 暂时不支持
-			assert(false);
 			return false;
 		}
 
